@@ -1,6 +1,7 @@
 package checks
 
 import (
+	"encoding/binary"
 	"fmt"
 	"os"
 	"runtime/metrics"
@@ -467,6 +468,14 @@ func TestC01(t *testing.T) {
 		harness.Class("sweep:"+ep.Name, n)
 	}
 
+	// (1a) 16-bit count and length fields at and near their extremes WITH the announced content
+	// really present (the field sweep above sets such fields on minimal packets, which every
+	// decoder refuses at its first length check)
+	if harness.Cfg.Shard == 0 {
+		n := c01SaturatedCounts(t)
+		harness.Exhaustive(subC01Name+"/saturated-counts", fmt.Sprintf("%d frames: CCFB num_reports in {0x3FFF, 0x4000, 0x7FFF, 0x8000, 0xFFFE, 0xFFFF} x {field, field+1, field+2} metric blocks present x 4 begin_seq x 3 fills; XR blocks of every variable-length kind with block length 16382..16385, 32767, 32768, 49152, 65533 and their content, alone and between neighbours - by rtcp.Unmarshal and by the type's decoder", n))
+	}
+
 	// (1b) decoders called on a receiver that was used before
 	testC01Reuse(t)
 	if harness.Cfg.Shard == 0 {
@@ -507,6 +516,54 @@ func TestC01(t *testing.T) {
 		}
 		c01Eval(rt, sub, kind, w)
 	})
+}
+
+// ccfbFrame: an RFC 8888 packet with one report block whose num_reports field is `field` and
+// which holds nMetrics metric blocks of value fill.
+func ccfbFrame(begin, field uint16, nMetrics int, fill uint16) []byte {
+	body := 2 * nMetrics
+	if nMetrics%2 == 1 {
+		body += 2
+	}
+	b := make([]byte, 8+8+body+4)
+	b[0], b[1] = 0x80|11, 205
+	binary.BigEndian.PutUint16(b[2:], uint16(len(b)/4-1))
+	binary.BigEndian.PutUint32(b[4:], 0x01020304)
+	binary.BigEndian.PutUint32(b[8:], 0x05060708)
+	binary.BigEndian.PutUint16(b[12:], begin)
+	binary.BigEndian.PutUint16(b[14:], field)
+	for i := 0; i < nMetrics; i++ {
+		binary.BigEndian.PutUint16(b[16+2*i:], fill)
+	}
+	binary.BigEndian.PutUint32(b[len(b)-4:], 0x0a0b0c0d)
+	return b
+}
+
+func c01SaturatedCounts(t *testing.T) int64 {
+	var n int64
+	un, ccfb, xr := entryPoints[0], entryPoints[epIndex["CCFeedbackReport"]], entryPoints[epIndex["ExtendedReport"]]
+	for _, field := range []uint16{0x3FFF, 0x4000, 0x7FFF, 0x8000, 0xFFFE, 0xFFFF} {
+		for extra := 0; extra <= 2; extra++ {
+			for _, begin := range []uint16{0, 1, uint16(65535 - int(field)), uint16(65536 - int(field))} {
+				for _, fill := range []uint16{0, 0x8001, 0xFFFF} {
+					b := ccfbFrame(begin, field, int(field)+extra, fill)
+					c01Eval(t, un, "saturated-count:ccfb", b)
+					c01Eval(t, ccfb, "saturated-count:ccfb", b)
+					n += 2
+				}
+			}
+		}
+	}
+	for _, c := range c15LargeBlocks() {
+		e, err := m.Encode(m.Packet{Kind: m.KXR, XR: &c.X}, nil)
+		if err != nil {
+			t.Fatalf("reference encoder refuses a large XR value: %v", err)
+		}
+		c01Eval(t, un, "saturated-count:xr-block", e.B)
+		c01Eval(t, xr, "saturated-count:xr-block", e.B)
+		n += 2
+	}
+	return n
 }
 
 func testC01Reuse(t *testing.T) {
